@@ -20,3 +20,20 @@ Print Assumptions C04_run_is_function_of_content.
 Theorem C04_read_sizes_irrelevant : forall sizes l, concat (split_reads l sizes) = l.
 Proof. exact split_reads_concat. Qed.
 Print Assumptions C04_read_sizes_irrelevant.
+
+(* ---- on the faithful engine model (RModel/Engine.v), by erun_sound: two runs over the same content
+   with any two delivery schedules, buffer sizes, terminals and Read-size sequences hand out
+   comparable bytes (one a prefix of the other); when both reach io.EOF they handed out the same bytes
+   and took the same number of bytes from the source.  (Partial: that both runs reach io.EOF, or stop
+   with the same error, is proved for the specification-level reader above, not yet for the engine.) *)
+From Verif Require Import Engine EngineRefineSpecTop EngineRefineFinal EngineCorollaries.
+Theorem C04_engine_schedule_independent_partial : forall data cs1 cs2 b1 b2 t1 t2 reads1 reads2,
+  bytes_ok data -> cut_of cs1 data -> cut_of cs2 data ->
+  let r1 := erun_ext b1 cs1 t1 reads1 in
+  let r2 := erun_ext b2 cs2 t2 reads2 in
+  (is_prefix (results_bytes (fst r1)) (results_bytes (fst r2)) \/
+   is_prefix (results_bytes (fst r2)) (results_bytes (fst r1))) /\
+  (In REOF (map snd (fst r1)) -> In REOF (map snd (fst r2)) ->
+   results_bytes (fst r1) = results_bytes (fst r2) /\ snd r1 = snd r2).
+Proof. exact engine_schedule_independent. Qed.
+Print Assumptions C04_engine_schedule_independent_partial.
